@@ -297,4 +297,36 @@ theorem object_schema_not_counted (q : Qualifier) (ip : Bool) (a b : Text) :
     checkScope q ip [.object a, .table b] = true := by
   by_cases hb : b.isEmpty = true <;> simp [checkScope, scopeGo, hb, dedup]
 
+/-! ### the TiDB planner (plans every atomic change on its own) -/
+
+/-- the scope check as the pinned TiDB planner performed it: every atomic change is handed to the MySQL
+planner alone, so the check sees one change at a time. -/
+def perChangeScope (q : Qualifier) (ip : Bool) (cs : List ScopeCh) : Bool := cs.all (fun c => checkScope q ip [c])
+
+/-- **pinned_tidb_two_schemas** (repaired by `7d8266a`): checked one change at a time, a change set with table
+changes in two different schemas is accepted although the check of the whole set rejects it. -/
+theorem pinned_tidb_two_schemas (q : Qualifier) (ip : Bool) (a b : Text) (ha : a ≠ []) (hb : b ≠ [])
+    (hab : a ≠ b) :
+    perChangeScope q ip [.table a, .table b] = true ∧ checkScope q ip [.table a, .table b] = false := by
+  refine ⟨?_, scope_rejects_two_schemas q ip _ a b ha hb hab (by simp) (by simp)⟩
+  have h1 : a.isEmpty = false := by cases a <;> simp_all
+  have h2 : b.isEmpty = false := by cases b <;> simp_all
+  simp [perChangeScope, checkScope, scopeGo, h1, h2, dedup, ha, hb]
+
+/-- the whole-set check is never more permissive than the per-change one: what it accepts, every single
+change passes as well (table / object / other changes; schema changes are decided alone anyway). -/
+theorem whole_set_implies_per_change (q : Qualifier) (ip : Bool) (cs : List ScopeCh)
+    (hcs : ∀ c ∈ cs, (∃ s, c = .table s) ∨ (∃ s, c = .object s) ∨ c = .other)
+    (_h : checkScope q ip cs = true) : perChangeScope q ip cs = true := by
+  unfold perChangeScope
+  rw [List.all_eq_true]
+  intro c hc
+  rcases hcs c hc with ⟨s, rfl⟩ | ⟨s, rfl⟩ | rfl
+  · by_cases hs : s = []
+    · simp [checkScope, scopeGo, hs, dedup]
+    · have : s.isEmpty = false := by cases s <;> simp_all
+      simp [checkScope, scopeGo, this, hs, dedup]
+  · simp [checkScope, scopeGo, dedup]
+  · simp [checkScope, scopeGo, dedup]
+
 end Props.C16
